@@ -250,6 +250,35 @@ def _parse_print(line):
     return json.loads(s)
 
 
+def run_apalache(module, obligations, timeout=900):
+    """Apalache on spec/apalache/<module>.tla: obligations = [(name, [args...])].  Returns {name: "ok" | "timeout" | "unavailable"};
+    a counterexample raises ToolError (the design-level argument is wrong).  A time-out is reported, not fatal: the bounded TLC
+    runs remain the deciding method."""
+    out = {}
+    src = os.path.join(SPEC, "apalache", module + ".tla")
+    if shutil.which("apalache-mc") is None:
+        return {name: "unavailable" for name, _ in obligations}
+    for name, args in obligations:
+        od = os.path.join(WORK, "apalache-%s-%s-%d" % (module, name, os.getpid()))
+        shutil.rmtree(od, ignore_errors=True)
+        os.makedirs(od, exist_ok=True)
+        try:
+            p = subprocess.run(["apalache-mc", "check", "--out-dir=" + od] + args + [src], cwd=od, stdout=subprocess.PIPE, stderr=subprocess.STDOUT,
+                               timeout=timeout)
+            text = p.stdout.decode("utf-8", "replace")
+            if p.returncode == 0 and "EXITCODE: OK" in text:
+                out[name] = "ok"
+            elif p.returncode == 12:
+                raise ToolError("Apalache found a counterexample to %s of %s:\n%s" % (name, module, text[-1500:]))
+            else:
+                raise ToolError("Apalache failed on %s of %s (rc %s):\n%s" % (name, module, p.returncode, text[-1500:]))
+        except subprocess.TimeoutExpired:
+            out[name] = "timeout"
+        finally:
+            shutil.rmtree(od, ignore_errors=True)
+    return out
+
+
 def check_action_coverage(res, must):
     """Vacuity guard: every action named in `must` was taken at least once."""
     missing = [a for a in must if res.coverage.get(a, (0, 0))[1] == 0]
